@@ -33,6 +33,9 @@ def do_replay(path):
                 json.dump(r["overrides"], f)
             args.append(f"replay={f.name}")
         p = subprocess.run(args, capture_output=True, text=True)
+        if r.get("kind") == "honest-panics":
+            print("exit code:", p.returncode, p.stderr[-300:])
+            return 1 if p.returncode != 0 else 0
         out = json.loads(p.stdout) if p.returncode == 0 else {"error": p.stderr[-500:]}
         if r.get("kind") == "honest-rejected":
             print("honest_verify:", out.get("honest_verify"))
